@@ -4,3 +4,5 @@ import XProofs.Properties.C18
 #print axioms Properties.C18.C18_definitions_committed
 #print axioms Properties.C18.C18_value_assignment_graph
 #print axioms Properties.C18.C18_recover
+#print axioms Properties.C18.C18_outside_untouched
+#print axioms Properties.C18.C18_recover_exec
